@@ -114,6 +114,18 @@ class C08(Check):
                 and not p.get("allow_known") and self.guard_int_range):
             res.count("excluded_by_finding")
             return
+        lenient = False
+        shape2d = p.get("shape2d")
+        if shape2d == "block" and 2 * len(arr) > count and count > 1:
+            # twice as many entries as given, in an (n, 2) block: more than the geometry has
+            arr = np.stack([arr, arr], axis=1)
+            exp = ("reject", "more entries than the geometry (2-D block)")
+            res.label("shape:block")
+        elif shape2d in ("col", "row") and len(arr) > 1:
+            # a column / row vector holds the same entries: if it is taken at all, it is taken as the flat array
+            arr = arr.reshape((-1, 1) if shape2d == "col" else (1, -1))
+            lenient = True
+            res.label("shape:" + shape2d)
         host = self.host(p["assoc"], count)
         spec = {"values": arr, "association": p["assoc"]}
         if explicit:
@@ -133,9 +145,11 @@ class C08(Check):
         except Exception as exc:
             raised = f"{type(exc).__name__}: {exc}"[:200]
         sig_tail = f"{p['via']}/{kind}/{arr.dtype.kind}{arr.dtype.itemsize * 8}"
-        boundary = any(isinstance(t, str) for t in p["tokens"]) or len(arr) != count
+        boundary = any(isinstance(t, str) for t in p["tokens"]) or len(given) != count
         if raised is not None:
-            if exp[0] == "accept":
+            if exp[0] == "accept" and lenient:
+                res.label("2d-vector-refused")
+            elif exp[0] == "accept":
                 res.fail(f"C08/valid-value-rejected/{sig_tail}", f"{given.tolist()!r:.200} ({arr.dtype}) into {kind} data of {count}: {raised}")
             else:
                 res.nontrivial = True
@@ -158,7 +172,7 @@ class C08(Check):
         if data.values.dtype.kind != {"float": "f", "int": "i", "ref": "i", "bool": "b"}[kind]:
             res.fail(f"C08/live-dtype/{sig_tail}", f"values dtype {data.values.dtype}")
             return
-        if not np.array_equal(arr, given, equal_nan=True):
+        if arr.ndim == 1 and not np.array_equal(arr, given, equal_nan=True):
             res.count("input_array_modified_in_place")
         uid = data.uid
         del data, host
